@@ -7,6 +7,7 @@ import (
 	"go/types"
 	"os"
 	"strings"
+	"sync"
 
 	"golang.org/x/tools/go/ssa"
 )
@@ -91,6 +92,10 @@ type Interp struct {
 	observes    []string
 	pathNotes   []string
 
+	fstat      *forkStat
+	lazyAlt    bool
+	pending    []pendingAssert
+	normalEnd  bool
 	pcVars     map[*Term]bool
 	pcSeen     map[*Term]bool
 	constCache map[*ssa.Const]Value
@@ -344,7 +349,12 @@ func (it *Interp) addPC(c *Term) {
 	it.notePCVars(c)
 	if it.model != nil {
 		if v := it.tb.Eval(c, it.model, it.modelMemo); v == nil || !v.IsConst() || !v.B {
-			it.model = nil
+			if !it.repairModel(c) {
+				if os.Getenv("GOSYM_DEBUG") != "" {
+					dbg("model dropped at literal %s %s (eval=%v)", c.Op, c.body(), v)
+				}
+				it.model = nil
+			}
 		}
 	}
 	it.known[c] = true
@@ -360,6 +370,39 @@ func (it *Interp) addPC(c *Term) {
 			}
 		}
 	}
+}
+
+// repairModel tries to adapt the cached model to a new literal of the form b, (not b), (= x k) over an input
+// variable, and re-validates the whole path condition under the adapted model.
+func (it *Interp) repairModel(c *Term) bool {
+	var v, val *Term
+	switch {
+	case c.Op == "var" && c.S.K == SBool:
+		v, val = c, it.tb.True
+	case c.Op == "not" && c.Args[0].Op == "var":
+		v, val = c.Args[0], it.tb.False
+	case c.Op == "=" && c.Args[0].Op == "var" && c.Args[1].IsConst():
+		v, val = c.Args[0], c.Args[1]
+	case c.Op == "=" && c.Args[1].Op == "var" && c.Args[0].IsConst():
+		v, val = c.Args[1], c.Args[0]
+	default:
+		return false
+	}
+	old := it.model[v.Name]
+	it.model[v.Name] = val
+	memo := map[*Term]*Term{}
+	for _, l := range it.pc {
+		if r := it.tb.Eval(l, it.model, memo); r == nil || !r.IsConst() || !r.B {
+			if old != nil {
+				it.model[v.Name] = old
+			} else {
+				delete(it.model, v.Name)
+			}
+			return false
+		}
+	}
+	it.modelMemo = memo
+	return true
 }
 
 // notePCVars records which variables occur in the path condition.
@@ -440,7 +483,10 @@ func (it *Interp) lookupKnown(c *Term) (bool, bool) {
 	return false, false
 }
 
-// decide resolves a symbolic condition to a concrete boolean, forking the path if both sides are feasible.
+// decide resolves a symbolic condition to a concrete boolean, forking the path when the other side may be
+// feasible. Forking is lazy: the alternative is pushed without a feasibility query and verified when it runs
+// (its first solver interaction, or the final feasibility check), so a fork costs no query when the cached model
+// already witnesses one side.
 func (it *Interp) decide(c *Term) bool {
 	if v, ok := it.lookupKnown(c); ok {
 		return v
@@ -451,49 +497,47 @@ func (it *Interp) decide(c *Term) bool {
 	var choice bool
 	if d := it.nextDecision(); d >= 0 {
 		choice = d == 1
-	} else if v := stripNot(c); v.Op == "var" && !it.pcVars[v] {
-		// an unconstrained boolean input: both sides are feasible, no query needed
-		alt := append(append([]int{}, it.decisions...), 0)
-		it.pushWork(alt)
-		choice = true
-	} else {
-		side, have := it.evalModel(c)
-		if have {
-			// the cached model witnesses `side`; only the other side needs a query
+	} else if side, have := it.evalModelVerified(c); have {
+		choice = side
+		st := it.forkStats()
+		if st.eager() {
+			// this harness mostly produces infeasible alternatives: prune them at the fork (one query)
 			var other *Term
 			if side {
 				other = it.tb.Not(c)
 			} else {
 				other = c
 			}
-			r := it.check(other)
-			if r == Unsat {
-				choice = side
-			} else {
+			if r := it.check(other); r != Unsat {
 				if r == Unknown {
 					it.rep.UnknownBranches++
 				}
-				alt := append(append([]int{}, it.decisions...), b2i(!side))
-				it.pushWork(alt)
-				choice = side
+				it.pushWork(append(append([]int{}, it.decisions...), b2i(!side), markEager))
 			}
 		} else {
-			rT := it.checkModel(c)
-			if rT == Unsat {
-				choice = false
-			} else {
-				rF := it.check(it.tb.Not(c))
-				if rF == Unsat {
-					choice = true
-				} else {
-					if rT == Unknown || rF == Unknown {
-						it.rep.UnknownBranches++
-					}
-					alt := append(append([]int{}, it.decisions...), 0)
-					it.pushWork(alt)
-					choice = true
-				}
+			it.pushWork(append(append([]int{}, it.decisions...), b2i(!side), markLazy))
+		}
+	} else {
+		rT := it.checkModel(c)
+		switch rT {
+		case Sat:
+			alt := append(append([]int{}, it.decisions...), 0)
+			it.pushWork(alt)
+			choice = true
+		case Unsat:
+			rF := it.checkModel(it.tb.Not(c))
+			if rF == Unsat {
+				panic(pathEnd{"killed", "infeasible path"})
 			}
+			if rF == Unknown {
+				it.rep.UnknownBranches++
+			}
+			choice = false
+		default:
+			it.rep.UnknownBranches++
+			alt := append(append([]int{}, it.decisions...), 0)
+			it.pushWork(alt)
+			choice = true
 		}
 	}
 	if choice {
@@ -506,6 +550,21 @@ func (it *Interp) decide(c *Term) bool {
 	it.rep.Transitions++
 	return choice
 }
+
+// forkStat adapts between lazy and eager forking per harness.
+type forkStat struct {
+	mu         sync.Mutex
+	lazyRun    int
+	lazyKilled int
+}
+
+func (f *forkStat) eager() bool {
+	f.mu.Lock()
+	defer f.mu.Unlock()
+	return f.lazyRun >= 16 && f.lazyKilled*3 > f.lazyRun
+}
+
+func (it *Interp) forkStats() *forkStat { return it.fstat }
 
 func stripNot(c *Term) *Term {
 	for c.Op == "not" {
@@ -527,6 +586,27 @@ func (it *Interp) pushWork(p []int) {
 		return
 	}
 	it.work = append(it.work, p)
+}
+
+// evalModelVerified is evalModel, but a path that has no model yet (an unverified lazily forked alternative)
+// first verifies its path condition - an infeasible alternative dies here with a single query.
+func (it *Interp) evalModelVerified(c *Term) (bool, bool) {
+	if it.model == nil && len(it.pc) > 0 {
+		r := it.checkModel(it.tb.True)
+		if it.lazyAlt {
+			it.lazyAlt = false
+			it.fstat.mu.Lock()
+			it.fstat.lazyRun++
+			if r == Unsat {
+				it.fstat.lazyKilled++
+			}
+			it.fstat.mu.Unlock()
+		}
+		if r == Unsat {
+			panic(pathEnd{"killed", "infeasible path"})
+		}
+	}
+	return it.evalModel(c)
 }
 
 // evalModel evaluates c under the cached model of the current path condition (if still valid).
@@ -1264,3 +1344,8 @@ func (it *Interp) findMethod(T types.Type, pkg *types.Package, name string) *ssa
 	}
 	return it.prog.MethodValue(sel)
 }
+
+const (
+	markLazy  = -1 << 62
+	markEager = -1<<62 + 1
+)
